@@ -1,3 +1,3 @@
 import MpfVerif.DriverLoop
-import MpfVerif.Model.Config
-def main : IO UInt32 := MpfVerif.runDriver MpfVerif.Config.driverStep ()
+import MpfVerif.Model.ConfigExtDriver
+def main : IO UInt32 := MpfVerif.runDriver MpfVerif.ConfigExt.driverStepX []
